@@ -27,7 +27,24 @@ import (
 
 var res *report.Result
 
-var alphabet = []string{"a", "..", ".", "%2e%2e", "%2E%2e", "%2e", "", "%2f", "..%2f", ";p", "%252e%252e"}
+var alphabet = []string{"a", "..", ".", "%2e%2e", "%2E%2e", "%2e", "", "%2f", "..%2f", ";p", "%252e%252e",
+	// segments that repeat, extend or abbreviate the segments of the configured base paths (/base, /base/v1/)
+	"base", "basement", "v1", "v1beta", "bas"}
+
+// hasDotSegment: after one percent-decoding, does the remainder contain a ".." segment? (The recorded
+// preserve_path deviation needs one; an escape without any is a different defect.)
+func hasDotSegment(rawRem string) bool {
+	dec, err := url.PathUnescape(rawRem)
+	if err != nil {
+		dec = rawRem
+	}
+	for _, seg := range strings.Split(dec, "/") {
+		if seg == ".." {
+			return true
+		}
+	}
+	return false
+}
 
 // normalise: percent-decode once, then remove dot segments (RFC 3986 5.2.4), keeping empty segments
 func normalise(escaped string) (string, bool) {
@@ -130,10 +147,11 @@ func e1cell(rawRem, base string, preserve bool, q string, reported map[string]bo
 	if preserve && strings.Trim(base, "/") != "" {
 		res.SetAdd("distinct_nontrivial", "E1|"+base+"|"+norm)
 		if !under(norm, base) {
-			k := "escape|" + base
+			dots := hasDotSegment(rawRem)
+			k := fmt.Sprintf("escape|%s|%v", base, dots)
 			if !reported[k] {
 				reported[k] = true
-				res.Violate("path-escapes-base", map[string]any{"part": "E1", "preserve_path": true}, cell+fmt.Sprintf("\nafter one percent-decoding and dot-segment removal the path is %q, outside %q", norm, base), rp)
+				res.Violate("path-escapes-base", map[string]any{"part": "E1", "preserve_path": true, "dot_segments": dots}, cell+fmt.Sprintf("\nafter one percent-decoding and dot-segment removal the path is %q, outside %q", norm, base), rp)
 			}
 		}
 	}
@@ -218,9 +236,9 @@ func e2() {
 					}
 					if ec.preserve {
 						norm, ok := normalise(q.Path())
-						if ok && !under(norm, ec.base) && !reported["esc"] {
-							reported["esc"] = true
-							res.Violate("path-escapes-base", map[string]any{"part": "E2", "preserve_path": true}, cell+fmt.Sprintf("\nbackend was asked for %q, which normalises to %q, outside %q", q.Path(), norm, ec.base), rp)
+						if dots := hasDotSegment(rem); ok && !under(norm, ec.base) && !reported[fmt.Sprint("esc", dots)] {
+							reported[fmt.Sprint("esc", dots)] = true
+							res.Violate("path-escapes-base", map[string]any{"part": "E2", "preserve_path": true, "dot_segments": dots}, cell+fmt.Sprintf("\nbackend was asked for %q, which normalises to %q, outside %q", q.Path(), norm, ec.base), rp)
 						}
 					}
 					if ti%1500 == 7 {
